@@ -4,6 +4,7 @@ package props
 
 import (
 	"fmt"
+	"math"
 	"runtime"
 	"sort"
 	"sync"
@@ -28,7 +29,15 @@ type c20Case struct {
 type rng struct{ start, end int }
 
 // iteration counts far beyond the enumerated grid (around powers of two and of ten, up to 2^62)
-var c20LargeN = []int{4096, 65536, 1000000, 1 << 24, 1<<31 - 1, 1 << 31, 1 << 32, 1<<32 + 4099, 1 << 40, 1<<53 + 1, 1 << 62}
+var c20LargeN = func() []int {
+	var out []int
+	for _, v := range []int64{4096, 65536, 1000000, 1 << 24, 1<<31 - 1, 1 << 31, 1 << 32, 1<<32 + 4099, 1 << 40, 1<<53 + 1, 1 << 62} {
+		if v <= int64(math.MaxInt-8) { // (a 32-bit build keeps the sizes its int can hold)
+			out = append(out, int(v))
+		}
+	}
+	return out
+}()
 
 func evalC20(c c20Case, rec *hx.Rec) error {
 	var mu sync.Mutex
